@@ -277,6 +277,42 @@ def via_picky(x: fp.Real) -> fp.Real:
     return y
 
 
+PTABLE = [fp.FP64.round(2), fp.FP64.round(4), fp.FP64.round(8)]     # a Python-owned list of FPy numbers
+
+
+@fp.fpy
+def halve_first(zs: list[fp.Real]) -> fp.Real:
+    with fp.FP32:
+        zs[0] = zs[0] / 2
+    return zs[0] + zs[1]
+
+
+@fp.fpy_primitive
+def table_sum(x: fp.Real, ctx: fp.Context) -> fp.Real:
+    # a Python body handing a Python-owned list to an FPy function that writes its parameter:
+    # a call from Python like any other, so the list must come back untouched
+    return halve_first(PTABLE, ctx=ctx)
+
+
+@fp.fpy
+def use_table(x: fp.Real) -> fp.Real:
+    with fp.FP32:
+        y = table_sum(x) + x
+    return y
+
+
+@fp.fpy_primitive
+def pass_list(xs: list[fp.Real], ctx: fp.Context) -> fp.Real:
+    return halve_first(xs, ctx=ctx)
+
+
+@fp.fpy
+def use_pass_list(xs: list[fp.Real]) -> tuple[fp.Real, fp.Real]:
+    with fp.FP32:
+        s = pass_list(xs)
+    return (s, xs[0])
+
+
 @fp.fpy(ctx=fp.FP32)
 def pinned32(x: fp.Real) -> fp.Real:
     # the function pins its own context: the caller's `ctx=` must not matter
@@ -377,6 +413,8 @@ def shadowing(x: fp.Real, gain: fp.Real) -> fp.Real:
 
 
 SIG = {
+    'use_table': ['num'],
+    'use_pass_list': ['list2+'],
     'pinned32': ['num'],
     'pinned_rtz16': ['num'],
     'calls_pinned': ['num'],
@@ -420,7 +458,7 @@ SIG = {
 
 # functions whose operations run (at least partly) under the context the *caller* supplies: the ones
 # for which "the same function under another context" is a different computation
-AMBIENT = ['pinned32', 'pinned_rtz16', 'calls_pinned', 'tenth', 'helper_noctx', 'calls', 'alt_loop', 'ident', 'boosted', 'dot', 'sum_enum', 'early', 'nested',
+AMBIENT = ['use_table', 'use_pass_list', 'pinned32', 'pinned_rtz16', 'calls_pinned', 'tenth', 'helper_noctx', 'calls', 'alt_loop', 'ident', 'boosted', 'dot', 'sum_enum', 'early', 'nested',
            'uses_closure', 'shadowing']
 
 # functions that pin their own context with @fp.fpy(ctx=...) (a common idiom): the caller's ctx= must not matter
